@@ -159,9 +159,11 @@ def fam_persist(ctx, rng):
     path = os.path.join(d, "rec.json")
     try:
         before = snap.snap(rec)
-        rec.save(path)
+        import pathlib
+        path_arg = pathlib.Path(path) if rng.random() < 0.3 else path
+        rec.save(path_arg)
         ctx.check(snap.snap(rec) == before, "save-leaves-recording-unchanged", "save() changed the recording", **info)
-        back = hvsrpy.SeismicRecording3C.load(path)
+        back = hvsrpy.SeismicRecording3C.load(path_arg)
         ctx.count("save_load_round_trips")
     finally:
         if os.path.exists(path):
